@@ -8,6 +8,12 @@ COMMON_NOTE = ("Trusted: Lean 4.33.0 kernel (axioms propext, Quot.sound, Classic
 CLAIMS = {
  "C17": ("proof", "Lean 4 theorems over the literal model of SpVecGF2 for every operation history (canonical form, refinement to the dense GF(2) computation, size/product/sum laws); model tied to spvecgf2.hpp by differential replay of generated and exhaustive-short histories on the real class; an independent dense oracle decides the property on the implementation.",
          "Lean 4 proof (induction over histories, refinement to dense spec) + correspondence check", "§5 C17"),
+ "C01": ("proof", "Lean 4 theorems: for every simple positive graph, every ForestIndex (any unordered_set order), every variant's literal support bookkeeping and every choice of per-phase minimum odd cycles (relational model FullRun), the emitted cycles number m-n+c, are circuits (simple cycles), independent over GF(2) and span the cycle space (abstract de Pina theory, fully proved, instantiated on the literal model). The C++ is tied to the model by trace validation of every run: each emitted cycle must satisfy the phase contract against the model's support vector (per-phase optimum from the model's signed-graph distances, and from a definitional 2^m enumeration when m<=11), plus an independent python oracle (simple cycles, GF(2) rank).",
+         "Lean 4 proof (de Pina triangular/exchange argument, refinement of the literal bookkeeping) + trace validation against the implementation", "§5 C01"),
+ "C02": ("proof", "Lean 4 theorems: under the same relational model the emitted basis is a minimum cycle basis (no heavier than ANY spanning family of cycle-space elements: exchange-injection argument, no dimension theory), its weight is the same for all variants and tie-breakings, and the accumulated return value is the emitted weight. Trace validation per run as in C01 plus an independent Horton-greedy optimum in python. The sorted-weights sentence is _partial (stated, not proved; compared per run).",
+         "Lean 4 proof (exchange argument against arbitrary bases) + trace validation + independent optimum", "§5 C02"),
+ "C16": ("proof", "Lean 4 theorems over the literal model of spanning_forest/ForestIndex for every simple graph and every iteration order of the unordered_set: forest edges acyclic and spanning (every off-forest edge closes a cycle with forest edges), n-c of them, index a bijection with inverse lookups, off-forest edges numbered first, dimension m-n+c without underflow, and the reindexed graph lies in the exact domain of the de Pina theory. Literal equality with the C++ (forest emission order, index, reverse, is_on_forest, dimension, components) using the observed unordered_set order; independent union-find oracle.",
+         "Lean 4 proof (BFS invariants, algebraic connectivity) + literal correspondence", "§5 C16"),
  "C18": ("proof", "Lean 4 theorems over the literal model of ext_gcd (Bezout + gcd for all integer pairs), get_mult_inverse, is_prime (iff Nat.Prime for every p>=2, for any admissible square-root bound) and SpVecFP (canonical form for every history, add/scale/dot refine arithmetic mod p, negative scalars included); model tied to fp.hpp/spvecfp.hpp by exhaustive-small and random correspondence for long, int and cpp_int.",
          "Lean 4 proof (loop invariants by functional induction, Mathlib Nat.Prime) + correspondence check", "§5 C18"),
 }
